@@ -10,8 +10,9 @@ PREFIX = "C10"
 CASE_TYPE = "C10_case"
 HARNESS = "c09"
 LEVEL = "proof"
-# classes 1 (C10-char8-utf8) and 4 (C10-float128-xcdr1-reader) were repaired in /repo (c6ffb24, 0b5427b)
-KNOWN = {2: "C10-wstring-format", 3: "C10-xcdr1-optional-origin"}
+# classes 1 (C10-char8-utf8), 3 (C10-xcdr1-optional-origin), 4 (C10-float128-xcdr1-reader) were repaired in /repo
+# (c6ffb24, addc370, 0b5427b)
+KNOWN = {2: "C10-wstring-format"}
 RULE = ("one case = a run-time built DynamicType + DynamicData (common subset: no mutable structure, no union) "
         "serialized by the real serializer and read back by the real deserializer; the bytes are compared inside Coq "
         "with the code model's encoder AND with the specification encoder, the decoded value with the input; "
@@ -77,9 +78,10 @@ MANIFEST = {
              "code model (type-driven, offsets from the origin, ALIGN as a residue). Machine-checked proof (Coq): on the "
              "common subset (primitives, strings, enumerations, sequences, arrays, FINAL/APPENDABLE structures, optional "
              "members; XCDR1 and XCDR2, both byte orders) the implementation model's bytes equal the specification "
-             "encoder's bytes and the implementation reads them back to the same value, outside two recorded classes "
-             "(wide strings, XCDR1 optional members), each with a witness (two earlier classes, char8 >= 0x80 and the "
-             "XCDR1 float128 reader, were repaired in /repo). The "
+             "encoder's bytes and the implementation reads them back to the same value, outside one recorded class "
+             "(wide strings, with a witness) and the case C09 reports (XCDR1 optional member with an empty value); "
+             "three earlier classes (char8 >= 0x80, XCDR1 optional member origin, XCDR1 float128 reader) were repaired "
+             "in /repo. The "
              "correspondence run compares the REAL serializer's bytes with both Coq encoders and the real "
              "deserializer's result with the input value. Mutable structures and unions are not compared."),
     "note": ("Partial because the oracle is our reading of the standard (in particular rule (4), wide strings, is recalled "
